@@ -12,6 +12,7 @@ the table API (erase / remove / insert_or_update), for which the spec is edited 
 sys.monitoring PY_START counters on the anchored functions show reach."""
 from __future__ import annotations
 
+import os
 import random
 import sys
 
@@ -484,7 +485,8 @@ def make_ref(E, rng, path, form):
 
 
 def show_ref(path):
-    return "::".join("@" + repr(p)[1:-1] for p in path)
+    return "::".join("@" + (p if p.isalnum() and p.isascii() else '"' + repr(p)[1:-1].replace('"', '\\"') + '"')
+                     for p in path)
 
 
 # ------------------------------------------------------------------------------------------ the monitor
@@ -1018,6 +1020,8 @@ def one_tree(M, tseed, with_edits=True):
 def plan(tier, seed):
     shards = 32 if tier == "quick" else 64
     per = 120 if tier == "quick" else 3200
+    if os.environ.get("XV_PYPATH") and os.environ.get("XV_C29_PER"):  # mutant self-tests on a loaded machine only
+        per = int(os.environ["XV_C29_PER"])
     return [{"kind": "trees", "base": (seed * 4096 + s) * 1_000_000, "count": per} for s in range(shards)]
 
 
